@@ -112,7 +112,7 @@ def run(ctx, res):
                 'after every step bytes-on-socket / unsent tail / queue length are compared with the Coq model, the stream with the '
                 'frames in put order, and select()-readability of the queue with qsize(); plus probes of the real Queue (random put/get; a 700-item backlog put by a producer thread while the consumer is not looking, '
                 'then drained only while select()-readable) and (thorough) '
-                'a threaded soak over a socketpair with a 4 KiB send buffer; and every interleaving of the primitives (superclass put/get/empty, send/recv of the wake-up byte) of a few concurrent put()/get() calls on the real Queue, threads released one primitive at a time (harness/qsched.py: five scenarios, all schedules), each judged on the real object and compared with the Coq queue model run on the same primitive trace; non-trivial = a partial send or would-block happened, or a queue schedule')
+                'a threaded soak over a socketpair with a 4 KiB send buffer; and every interleaving of the primitives (superclass put/get/empty, send/recv of the wake-up byte) of a few concurrent put()/get() calls on the real Queue, threads released one primitive at a time (harness/qsched.py: five scenarios, all schedules; plus two threads calling Reactor.write() with frames up to 40 KiB, all interleavings of their outbox operations, the socket must get A+B or B+A), each judged on the real object and compared with the Coq queue model run on the same primitive trace; non-trivial = a partial send or would-block happened, or a queue schedule')
     cases = []
     if ctx.scale == 1:
         for k in range(ctx.n(5, 40)):
@@ -166,6 +166,17 @@ def run(ctx, res):
                           fsig=('C20: queue schedule: ' + orc.split(' (')[0][:80]) if orc else None,
                           sig=('Q', r['scenario'], tuple(r['schedule']))))
 
+    # two producer threads calling Reactor.write(): every interleaving of their operations on the outbox (one put per frame
+    # on the unchanged tree); the frames must reach the socket whole, once, A+B or B+A
+    for r in qsched.explore_writes(max_runs=ctx.n(100, 400)):
+        res.evaluations += 1
+        res.count('writer_schedules')
+        res.signatures.add(('W', r['scenario'], tuple(r['schedule'])))
+        if r['failure']:
+            res.failures.append(dict(signature='C20: writers: ' + r['failure'].split(';')[0][:60], what=r['failure'],
+                                     case=dict(probe='writers', scenario=r['scenario'], schedule=r['schedule'])))
+            break
+
     def cmp(c, m):
         if isinstance(c['impl'], tuple) and c['impl'][0] == 'Q':
             want = c['impl'][1]
@@ -193,6 +204,12 @@ def replay(ctx, case):
             return r
         finally:
             s.close()
+    if case.get('probe') == 'writers':
+        import qsched
+        for r in qsched.explore_writes():
+            if r['failure']:
+                return r['failure']
+        return None
     if case.get('probe') == 'queue':
         return rd.queue_probe(ctx.rng('q%d' % case['k']))
     if case.get('probe') == 'backlog':
